@@ -302,6 +302,9 @@ class CircuitCompositeOperation(ICircuitCompositeOperation):
             # Apply relation-link head (Important for nested composite-operations)
             if not node.operation.has_relation:
                 node.operation.relation_link = self.relation_link
+                if self.relation_link.reference_node is not None:
+                    RelationLink.get_start_time.cache_clear()
+                    MultiRelationLink.get_start_time.cache_clear()
             # Extend decomposed operation list
             result.extend(node.operation.decomposed_operations())
         return result
